@@ -27,6 +27,8 @@ use crate::codec::family::Family;
 use crate::error::Error;
 use crate::hll::HllType;
 use crate::hll::KEY_MASK_26;
+use crate::hll::RESIZE_DENOMINATOR;
+use crate::hll::RESIZE_NUMERATOR;
 use crate::hll::container::COUPON_EMPTY;
 use crate::hll::container::Container;
 use crate::hll::serialization::COMPACT_FLAG_MASK;
@@ -104,41 +106,45 @@ impl HashSet {
             .map_err(insufficient_data("coupon_count"))?;
         let coupon_count = coupon_count as usize;
 
-        if compact {
-            // Compact mode: only couponCount coupons are stored
-            // Create a new hash set and insert coupons one by one
-            let mut hash_set = HashSet::new(lg_arr);
-            for i in 0..coupon_count {
-                let coupon = cursor.read_u32_le().map_err(|_| {
-                    Error::insufficient_data(format!(
-                        "expected {coupon_count} coupons, failed at index {i}"
-                    ))
-                })?;
-                hash_set.update(coupon);
-            }
-            Ok(hash_set)
-        } else {
-            // Non-compact mode: full hash table with empty slots
-            let array_size = 1 << lg_arr;
-
-            // Read entire hash table including empty slots
-            let mut coupons = vec![0u32; array_size];
-            for (i, coupon) in coupons.iter_mut().enumerate() {
-                *coupon = cursor.read_u32_le().map_err(|_| {
-                    Error::insufficient_data(format!(
-                        "expected {array_size} coupons, failed at index {i}"
-                    ))
-                })?;
-            }
-
-            Ok(Self {
-                container: Container::from_coupons(
-                    lg_arr,
-                    coupons.into_boxed_slice(),
-                    coupon_count,
-                ),
-            })
+        // A set is grown (or promoted) as soon as it is more than 3/4 full, so a valid image never
+        // holds more coupons than that; without this check the insertions below could fill
+        // the table completely.
+        let capacity = 1usize << lg_arr;
+        let overloaded = |len: usize| {
+            RESIZE_DENOMINATOR as usize * len > RESIZE_NUMERATOR as usize * capacity
+        };
+        if compact && overloaded(coupon_count) {
+            return Err(Error::deserial(format!(
+                "SET mode: {coupon_count} coupons exceed 3/4 of the {capacity} slots"
+            )));
         }
+
+        // Compact mode stores only the coupons, updatable mode the whole table including empty
+        // slots. Either way the table is rebuilt by insertion, which keeps the probing
+        // invariant and the coupon count consistent with the table.
+        let stored = if compact { coupon_count } else { capacity };
+        let mut hash_set = HashSet::new(lg_arr);
+        for i in 0..stored {
+            let coupon = cursor.read_u32_le().map_err(|_| {
+                Error::insufficient_data(format!(
+                    "expected {stored} coupons, failed at index {i}"
+                ))
+            })?;
+            if coupon == COUPON_EMPTY {
+                if compact {
+                    return Err(Error::deserial("SET mode: empty coupon in compact image"));
+                }
+                continue;
+            }
+            hash_set.update(coupon);
+        }
+        if overloaded(hash_set.container.len()) {
+            return Err(Error::deserial(format!(
+                "SET mode: {} coupons exceed 3/4 of the {capacity} slots",
+                hash_set.container.len()
+            )));
+        }
+        Ok(hash_set)
     }
 
     /// Serialize a HashSet to bytes
